@@ -569,7 +569,8 @@ PROPS = {
         "theorems": ["Stun.C15.close_once", "Stun.C15.after_close_rejects", "Stun.C15.no_output_after_close",
                      "Stun.C15.close_establishes", "Stun.C15.closed_forever", "Stun.C15.nothing_after_close",
                      "Stun.C15.start_after_close_rejected", "Stun.C15.step_no_connClose",
-                     "Stun.C15.conn_closed_at_most_once", "Stun.C15.step_closeConn", "Stun.C15.conn_close_ownership"],
+                     "Stun.C15.conn_closed_at_most_once", "Stun.C15.step_closeConn", "Stun.C15.conn_close_ownership",
+                     "Stun.C15.new_client_closes_once"],
         "streams": ["client-hist", "client-conc"], "level": "proof", "predicate": pred_client("C15"),
         "tagsets": [["verif"], ["verif", "race"]],
         "rule": CLIENT_RULE + "; option combinations default / WithNoConnClose / fallback handler / no-retransmit, agent and "
